@@ -463,6 +463,22 @@ impl ExpiredVal<i32> for SegVal {
     }
 }
 
+/// Value of the segment tree in its narrow instantiation (`SegExpTree<R, u8, SegValN>`):
+/// 8-bit expirations, a larger value.
+#[derive(Clone, Copy, Debug)]
+pub struct SegValN {
+    pub id: u32,
+    pub exp: u8,
+    pub pad: [u32; 3],
+}
+impl ExpiredVal<u8> for SegValN {
+    #[inline]
+    fn expiration(&self) -> u8 {
+        callback();
+        self.exp
+    }
+}
+
 // ---------------------------------------------------------------------------
 // allocator seam
 
